@@ -536,6 +536,13 @@ func quantifyNFA(n *auto.NFA, q any) *auto.NFA {
 	// Range repetition
 	case tuple[int, *int]:
 		low, up := rep.p, rep.q
+
+		// An invalid range has been reported as an error and the result is going to be discarded.
+		// Its lower bound can be arbitrarily large: the operand is not repeated more often than the upper bound says.
+		if up != nil && low > *up {
+			low = *up
+		}
+
 		ns := []*auto.NFA{}
 
 		for i := 0; i < low; i++ {
